@@ -320,12 +320,70 @@ func c05Body(w *W) {
 			forEachNDInput(w, func(name string, text []byte) { c.run(text, "C05-nd-"+name, len(text) > 4096) })
 		})
 	}
+	// (5) a rejected input that needs several index buffers, then valid ones, through the same
+	// reused parser state: whatever the failed call left queued must not reach the next call
+	if part == 0 || part == 5 {
+		w.Note("poison sequences: dense documents of 2..6 index buffers below the 8 KiB threshold (and 9 buffers above it) rejected by stage 2 inside the first, a middle or the last buffer (5 kinds of error), each followed by 3 valid documents (empty, small, dense) on the same reused parser state, all configurations")
+		errs := []string{",", "x,", `"k":1,`, "]", "1 1,"}
+		follow := [][]byte{[]byte("[]"), []byte(`{"a":[1,"x"],"b":null}`), append(append([]byte("["), bytes.Repeat([]byte("7,"), 1500)...), "7]"...)}
+		for _, pairs := range []int{800, 1500, 2200, 2900, 3600, 4050, 6500} {
+			for ei, e := range errs {
+				for where := 0; where < 3; where++ {
+					w.res.States++
+					if !w.Mine() || w.Expired() || w.TooManyViolations() {
+						continue
+					}
+					at := []int{3, pairs / 2, pairs - 2}[where]
+					var b bytes.Buffer
+					b.WriteByte('[')
+					for i := 0; i < pairs; i++ {
+						if i == at {
+							b.WriteString(e)
+						}
+						b.WriteString("1,")
+					}
+					b.WriteString("1]")
+					name := fmt.Sprintf("C05-poison/%d-pairs/err%d/where%d", pairs, ei, where)
+					c.run(b.Bytes(), name, false)
+					for _, f := range follow {
+						// judged under a case that names the whole sequence
+						seq := append(append(append([]byte(nil), b.Bytes()...), c05SeqSep...), f...)
+						w.res.Evaluations++
+						for i, cfg := range allCfgs() {
+							w.cur.Set(name+"/then-valid", cfg.String()+"/reuse", seq)
+							pj, err, p := c.sess[i].parse(cfg, f, false)
+							if p == "" && err != nil {
+								p = "a valid document was rejected after the rejected one: " + err.Error()
+							}
+							c.judgeT(name+"/then-valid", seq, cfg, false, pj, err, p, true)
+						}
+					}
+					w.res.Transitions += 4
+				}
+			}
+		}
+	}
 	w.Sample(fmt.Sprintf("mutation sample: %q with byte 17 replaced by 0x00..0xff", mutationSeeds[0]))
 }
+
+const c05SeqSep = "\n----then, on the same reused parser state----\n"
 
 func c05Replay(v *Violation) string {
 	g := newGuardRegion()
 	cfg := parseCfg(v.Config)
+	if parts := bytes.SplitN(v.Case, []byte(c05SeqSep), 2); len(parts) == 2 {
+		s := &parseSession{}
+		s.parse(cfg, []byte("[1]"), false)
+		_, err0, p0 := s.parse(cfg, parts[0], false)
+		pj, err, p := s.parse(cfg, parts[1], false)
+		if p != "" || err != nil {
+			return fmt.Sprintf("FAIL first input: err=%v panic=%q; second input on the same parser state: err=%v panic=%q", err0, p0, err, p)
+		}
+		if what := traverseAll(pj); what != "" {
+			return "FAIL second input: " + what
+		}
+		return "OK"
+	}
 	nd := v.Args == "ParseND"
 	for _, in := range [][]byte{g.atEnd(v.Case), g.atStart(v.Case)} {
 		for _, ndm := range []bool{nd, !nd} {
